@@ -211,7 +211,16 @@ class Writer:
             if self.at_doc_level and not self.canonical and 'tabs' not in self.exclude:
                 # at column 0 a tab, or up to three spaces and a tab, is the same indentation
                 lead = t.choice(['    ', '    ', '\t', ' \t', '   \t'])
-            return [L((lead if l.strip() else '    ') + l, False, [b] if i == 0 else None) for i, l in enumerate(b.lines)]
+            out = []
+            for i, l in enumerate(b.lines):
+                if l.strip():
+                    text = lead + l
+                elif l == '' and not self.canonical:
+                    text = t.choice(['', '', '    ', '  '])       # an empty line of the block: any indentation up to four columns
+                else:
+                    text = '    ' + l
+                out.append(L(text, False, [b] if i == 0 else None, False, False) if not text else L(text, False, [b] if i == 0 else None))
+            return out
         if k == 'htmlblock':
             return [L(l, False, [b] if i == 0 else None, False) for i, l in enumerate(b.lines)]
         if k == 'defs':
@@ -351,9 +360,19 @@ class Writer:
                 loose = True
             # a list is loose only if some blank line separates items or direct children
             b.a['loose_eff'] = False
+            prev_w = None
+            list_ind = ind
             for idx, (it, marker, inner, had_blank) in enumerate(results):
                 blank_first = bool(it.get('blank_first')) and bool(inner)
+                ind = list_ind
+                if idx and not self.canonical and 'item_indent' not in self.exclude:
+                    # a sibling's marker may be indented differently, as long as it stays left of the previous item's
+                    # content (else it would belong to that item) and within three columns
+                    room = min(3, prev_w - 1) - len(list_ind)
+                    if room > 0 and t.chance(50):
+                        ind = list_ind + ' ' * (1 + t.below(room))
                 w = len(ind) + len(marker) + (1 if blank_first else it.pad)
+                prev_w = w if inner else len(ind) + len(marker) + 1       # an empty item's content would start one column after the marker
                 it.a['w'] = w
                 item_lines = []
                 # a marker with nothing after it may still be followed by spaces / tabs (they never count)
